@@ -39,7 +39,24 @@ def _prio_fn(table):
 
 def execute(case):
     """Runs in a worker process. Returns (trace, error string or None)."""
-    from .sysdrv import System
+    if case.get("mangle"):
+        # paired run (C14): the same history and schedule with prompt in-order delivery, then with a mangled stream
+        plain = dict(case)
+        m = plain.pop("mangle")
+        a, err = execute(plain)
+        if err:
+            return None, err
+        if m[0] == "split":              # per-event batching: every batch split into single-event deliveries
+            toks = []
+            for t in plain["tokens"]:
+                toks += ([[t[0], 1]] * 4) if (t[0] in ("EL", "ER") and t[1] == 0) else [t]
+            b, err = execute(dict(plain, tokens=toks))
+        else:
+            b, err = execute(dict(plain, _mangle=m))
+        if err:
+            return None, err
+        return a + [{"ev": "SecondRun"}] + b + [{"ev": "Compare"}], None
+    from .sysdrv import System, make_mangler
     try:
         s = System(case.get("flavor", "oid/oid"), storage=case.get("storage", "mock"),
                    resolver=tuple(case["resolver"]) if case.get("resolver") else None,
@@ -50,13 +67,20 @@ def execute(case):
         if isinstance(base, str):
             base = BASES[base]
         s.begin(base, case.get("base_side", 0))
+        if case.get("_mangle"):
+            kind, sides = case["_mangle"]
+            if kind == "walk":           # a full walk of both roots is queued before every intake (replayed tree)
+                s.walk_before_intake = True
+            else:
+                for sd in sides:
+                    s.eng[sd].mangle = make_mangler(kind, s, sd)
         if case.get("kase"):
             d = {"ev": "Case"}
             d.update(case["kase"])
             s.rec.events.append(d)
         s.run_tokens(case["tokens"])
         if s.inj is not None:
-            s.rec.ev("Note", ncalls=s.inj["n"], nmut=s.inj["nmut"], nsw=s.storage.nwrites if s.storage else 0,
+            s.rec.ev("Note", ncalls=s.inj["n"], nmut=s.inj["nmut"], nsw=(s.storage.nwrites - s.inj.get("sw0", 0)) if s.storage else 0,
                      fired=1 if s.inj.get("fired") else 0)
         try:
             s.cs.done()
@@ -109,7 +133,7 @@ def _strip(ev):
 
 
 def _short(case):
-    return {k: v for k, v in case.items() if k in ("flavor", "base", "tokens", "resolver", "family", "aging", "kase", "prio")}
+    return {k: v for k, v in case.items() if k in ("flavor", "base", "tokens", "resolver", "family", "aging", "kase", "prio", "mangle")}
 
 
 # ---- seeded random histories (deeper than the exhaustive family) -------------------------------------------
